@@ -608,7 +608,13 @@ func writeFieldDefinition(fd Field, w *iohelp.ErrorWriter, readOnly bool, messag
 				formattedTags = append(formattedTags, fmt.Sprintf("%s:%q", tag.Key, tag.Value))
 			}
 		}
-		writeLine(w, "\t%s %s `%s`", name, typ, strings.Join(formattedTags, " "))
+		tagText := strings.Join(formattedTags, " ")
+		if strings.ContainsAny(tagText, "`\n\r") {
+			// a raw string literal cannot hold a backquote (or a line break)
+			writeLine(w, "\t%s %s %s", name, typ, strconv.Quote(tagText))
+		} else {
+			writeLine(w, "\t%s %s `%s`", name, typ, tagText)
+		}
 	} else {
 		writeLine(w, "\t%s %s", name, typ)
 	}
